@@ -11,7 +11,7 @@ ORACLES = ("dep_order", "values", "no_internal_error")
 RULE = (
     "cases = call-only DAG programs (2-9 call sites, <=3 dependencies each, drawn as positional / keyword / "
     "activation-flag dependencies, indexed uses of pair results (a few with an index the pair does not have: the node "
-    "must then never be entered and the call must raise), three resources, priorities, sequential flags, max_concurrency 1..5, sync and async "
+    "must then never be entered and the call must raise), sites flagged by ONE element of a pair whose elements are truthy / falsy independently, three resources, priorities, sequential flags, max_concurrency 1..5, sync and async "
     "flavour) x schedule: free-running with drawn sleeps, controlled (completion order chosen by a drawn choice "
     "vector inside the scheduler's own wait calls) or the exhaustive choice tree for small cases; oracle: for every "
     "node ENTER every dependency that takes part has EXITed earlier, the arguments observed inside the node equal "
@@ -22,7 +22,7 @@ ASSUMPTIONS = [
     "node functions are the harness's constructors (value = digest of function, site, received arguments)",
     "completion order is owned at the granularity of the scheduler's wait calls; free mode adds real GIL-level races",
 ]
-BUDGET = {"quick": {"shards": 4, "seconds": 40}, "thorough": {"shards": 16, "seconds": 420}}
+BUDGET = {"quick": {"shards": 8, "seconds": 40}, "thorough": {"shards": 16, "seconds": 420}}
 
 
 def _nt(case: Dict[str, Any], M: Model, stats: List[Dict[str, Any]]) -> bool:
